@@ -65,6 +65,60 @@ class Proto(Client):
             self.exits.add(s)
 
 
+def is_seen_mark(n):
+    """seen[...] = 1 (or true)"""
+    if n.get('k') == 'bin' and n.get('op') == '=':
+        l = path_of(n['l']) or ''
+        rv = see_through(n['r'])
+        return l.startswith('this.seen[') and isinstance(rv, dict) and rv.get('k') == 'lit' and rv.get('v') in (1, True)
+    if n.get('k') == 'call' and n.get('op') == '=' and len(n.get('a') or []) == 2:
+        l = path_of(n['a'][0]) or ''
+        rv = see_through(n['a'][1])
+        return l.startswith('this.seen[') and isinstance(rv, dict) and rv.get('k') == 'lit' and rv.get('v') in (1, True)
+    return False
+
+
+class LitWalk(Client):
+    """one iteration over an antecedent literal, proof logging assumed on"""
+
+    def __init__(self):
+        self.exits = set()
+
+    def on_assign(self, n, s):
+        if is_seen_mark(n):
+            return (s | {'marked'},)
+        return (s,)
+
+    def on_call(self, n, s):
+        if is_seen_mark(n):
+            return (s | {'marked'},)
+        if is_call(n, 'addResolutionStep'):
+            return (s | {'stepped'},)
+        if mname(n) in ('push', 'push_back') and n.get('recv') is not None and see_through(n['recv']).get('k') == 'ref' and see_through(n['recv']).get('d') in ('param', 'local'):
+            return (s | {'kept'},)
+        return (s,)
+
+    def on_cond(self, atom, s, branch):
+        a = see_through(atom)
+        if is_logs(a) or (isinstance(a, dict) and a.get('k') == 'ref' and a.get('n') == 'logProof'):
+            return s if branch else None
+        p = path_of(a) if isinstance(a, dict) else None
+        if p and p.startswith('this.seen['):
+            return (s | {'already'}) if branch else s
+        if isinstance(a, dict) and a.get('k') == 'bin' and a.get('op') in ('==', '!='):
+            pl = path_of(a['l']) or ''
+            rv = see_through(a['r'])
+            if pl.startswith('this.seen[') and isinstance(rv, dict) and rv.get('k') == 'lit':
+                is_marked = (rv.get('v') not in (0, False)) == (a['op'] == '==')
+                return (s | {'already'}) if branch == is_marked else s
+        txt = (atom.get('s') if isinstance(atom, dict) else None) or (callee(a).split('::')[-1] if isinstance(a, dict) and a.get('k') == 'call' else (a.get('op') if isinstance(a, dict) else '?'))
+        return s | {'cond:%s%s' % ('' if branch else '!', txt)}
+
+    def on_exit(self, kind, node, s):
+        if kind != 'throw':
+            self.exits.add(s)
+
+
 def is_logs(a):
     return isinstance(a, dict) and a.get('k') == 'call' and callee(a).endswith('::logsResolutionProof')
 
@@ -237,6 +291,35 @@ def run(src, tier, seed):
         res.bad(r, 'deleted-no-decrement', fx.loc(dele), 'ResolutionProof::deleted no longer decrements the reference count of every premise of the removed derivation')
 
     # ---- R4 a new derivation must not be dropped because its key already exists
+    # ---- literals of an antecedent are accounted for while a chain is being logged
+    r = res.rule('chain-literals-accounted', 'in conflict analysis (loops that mark the `seen` array in functions logging resolution steps), with proof logging on, every path '
+                 'through one iteration over an antecedent literal marks the literal for later resolution, puts it into the derived clause, logs a resolution step on it, '
+                 'or has found it already marked; a literal silently skipped stays in the real resolvent but not in the stated one', floor=3)
+    for f in fx.F.values():
+        if not f['name'].startswith(SCOPE_PREFIX) or not f.get('body'):
+            continue
+        if not any(is_call(n, 'addResolutionStep') for n in fwalk(f)):
+            continue
+        for lp in (n for n in walk(f['body']) if n.get('k') == 'loop'):
+            if any(c is not lp and c.get('k') == 'loop' for c in walk(lp['body'])):
+                continue
+            if not any(is_seen_mark(n) for n in walk(lp['body'])):
+                continue
+            c = LitWalk()
+            pseudo = {'body': {'k': 'loop', 'kind': 'do', 'cond': {'k': 'lit', 'v': False, 't': 'bool'}, 'body': lp['body'], 'ln': lp.get('ln')}, 'lambdas': f.get('lambdas', [])}
+            eng = Engine(pseudo, c)
+            eng.run([frozenset()])
+            if eng.broken:
+                raise AnalysisBroken('%s: literal loop at line %s: %s' % (f['name'], lp.get('ln'), eng.broken))
+            dropped = [st for st in c.exits if not (st & {'marked', 'kept', 'stepped', 'already'})]
+            short = f['name'].split('::')[-1]
+            if dropped:
+                res.bad(r, 'chain-literal-dropped:%s' % short, fx.loc(f, lp.get('ln')), '%s: with proof logging on, one iteration of the loop over the antecedent\'s literals (line %s) can finish '
+                        'without marking the literal, keeping it in the derived clause or resolving it away (conditions on that path: %s): the logged chain then derives a '
+                        'larger clause than the one the solver uses' % (f['name'], lp.get('ln'), sorted({x for st in dropped for x in st if x.startswith('cond:')})[:4]))
+            else:
+                res.ok(r, '%s: literal loop at line %s (%d path states)' % (short, lp.get('ln'), len(c.exits)))
+
     r = res.rule('derivation-not-dropped', 'endChain stores the finished derivation with an operation that cannot silently keep an older entry for the same clause '
                  '(the empty clause CRef_Undef is re-derived after every pop): emplace/insert whose result is discarded is only safe if absence is enforced by non-assert code', floor=1)
     ec = fx.func('opensmt::ResolutionProof::endChain')
